@@ -84,6 +84,10 @@ var knownGlobal *knownSet
 // knownMatchers: predicates over (violation class, attributes of the atomic
 // failure as reported by the judge).
 var knownMatchers = map[string]func(class string, attrs map[string]string, params map[string]string) bool{
+	// C12: two different groups answer to the same INI section name
+	"c12-colliding-section-names": func(class string, a map[string]string, _ map[string]string) bool {
+		return (class == "c12:own-output-rejected" || class == "c12:value-differs") && a["section_collision"] == "true"
+	},
 	// C12: an empty slice / empty map / nil pointer is written as a commented
 	// entry, which cannot override a non-empty `default:` tag on reading.
 	"c12-empty-value-with-default-tag": func(class string, a map[string]string, _ map[string]string) bool {
